@@ -488,3 +488,25 @@ impl H263State {
         })
     }
 }
+
+#[cfg(h263_rs_verif)]
+impl H263State {
+    /// Verification hook: the abstract reference-management state, i.e. the
+    /// temporal reference of the last picture, of the reference picture, and
+    /// the sorted keys of the picture store.
+    pub fn verif_abstract_state(&self) -> (Option<u16>, Option<u16>, Vec<u16>) {
+        let mut keys: Vec<u16> = self.reference_states.keys().copied().collect();
+        keys.sort_unstable();
+        (self.last_picture, self.reference_picture, keys)
+    }
+
+    /// Verification hook: the picture stored under a temporal reference.
+    pub fn verif_stored_picture(&self, tr: u16) -> Option<&DecodedPicture> {
+        self.reference_states.get(&tr)
+    }
+
+    /// Verification hook: the carried-over picture options.
+    pub fn verif_running_options(&self) -> PictureOption {
+        self.running_options
+    }
+}
